@@ -144,11 +144,14 @@ def run(ctx):
             if np.ndim(x0) == 0 or J is None:
                 continue
             tol = 1e-10
-            for solver in ("hybrj", "hybrj64", "ntr"):
+            for solver in ("hybrj", "hybrj64", "ntr", "ntr-maxiter3"):
                 inp = dict(kind="solver", solver=solver, system=name, x0=np.asarray(x0, dtype=float).tolist())
                 try:
                     if solver.startswith("hybrj"):
                         x, (succ, dxn, it, Fv) = OPT.hybrj(F, np.asarray(x0, dtype=np.longdouble if solver == "hybrj" else np.float64), J, tol=tol)
+                    elif solver == "ntr-maxiter3":
+                        # an iteration budget that runs out while progress is still being made is a failure to converge, not a success
+                        x, (succ, it, nf, nj, pr) = OPT.newtontrustregion(F, np.asarray(x0, dtype=np.float64), jac=J, tol=tol, maxiter=3)
                     else:
                         x, (succ, it, nf, nj, pr) = OPT.newtontrustregion(F, np.asarray(x0, dtype=np.float64), jac=J, tol=tol)
                 except Exception as e:
